@@ -155,6 +155,17 @@ func runLoop(param json.RawMessage, ctx *explore.Ctx, viols *[]xrun.Viol) string
 func main() {
 	flag.Parse()
 	par.ServeIfWorker(map[string]par.Handler{"x": statemc.Handler(expand), "loop": xrun.Handler(runLoop)})
+	if v, ok := ev.ReplayRequested(); ok {
+		switch {
+		case strings.HasPrefix(v.Part, "b-"):
+			statemc.Replay(v, expand)
+		case strings.HasPrefix(v.Part, "c-"):
+			xrun.Replay(v, runLoop)
+		default:
+			fmt.Printf("  the replay artefact names the failing case directly: %v\n", v.Replay)
+		}
+		return
+	}
 	r := ev.Start("C10")
 	defer r.RecoverMain()
 	defer world.Cleanup()
